@@ -534,6 +534,15 @@ def stmt_libs():
         if lang == "c":
             y["language"] = "c"
         out.append(("statement blocks with return_type (%s)" % lang, lang, y, hname, "\n".join(hdr) + "\n"))
+    # functions that need the shared helper functions (copy string / copy array) only inside a namespace with a module of its own
+    nsy = {"library": "nshelp", "cxx_header": "nshelp.hpp", "options": {"wrap_python": False, "wrap_lua": False},
+           "declarations": [{"decl": "int plain(int n)"},
+                            {"decl": "namespace inner", "declarations": [{"decl": "const std::string getName()"}, {"decl": "void fill(std::vector<int> &v +intent(out))"},
+                                                                       {"decl": "int *mk(int n) +dimension(n)+deref(allocatable)"},
+                                                                       {"decl": "namespace deep", "declarations": [{"decl": "std::vector<double> values()"}]}]}]}
+    nshdr = ("#include <string>\n#include <vector>\nint plain(int n);\nnamespace inner { const std::string getName(); void fill(std::vector<int> &v); int *mk(int n);\n"
+             "namespace deep { std::vector<double> values(); } }\n")
+    out.append(("helpers used only inside namespaces", "cxx", nsy, "nshelp.hpp", nshdr))
     return out
 
 
